@@ -136,6 +136,24 @@ func runC47(c *Ctx) {
 		}
 		c.Ob("C47.C1", closeFn, "DB."+f+" is released by Close", c.P.Pos(closeFn.Pos()), ok, detail+how)
 	}
+	// C47.O1: the file-system level closer (disk-health monitor) is closed only after every
+	// component that still performs file-system operations while closing.
+	{
+		fl := NewFlow(c.P).
+			After("did:objProvider.Close", MethodOn("Close", "d.objProvider")).
+			After("did:fileCache.Close", MethodOn("Close", "d.fileCache")).
+			After("did:deletePacer.Close", MethodOn("Close", "d.deletePacer")).
+			After("did:log.manager.Close", MethodOn("Close", "log.manager")).
+			After("did:versions.close", MethodOn("close", "mu.versions")).
+			After("did:marker.Close", MethodOn("Close", "formatVers.marker"))
+		fl.MaxDepth = 0
+		res := fl.Analyze(closeFn, emptyState())
+		n := c.Require("C47.O1", res, MethodOn("Close", "private.fsCloser"), "the FS-level closer runs after every component that still touches the file system",
+			[]string{"did:objProvider.Close", "did:fileCache.Close", "did:deletePacer.Close", "did:log.manager.Close", "did:versions.close", "did:marker.Close"})
+		if n == 0 {
+			c.Unresolved("C47.O1", "fsCloser.Close not found in DB.Close")
+		}
+	}
 	runC04Pairing(c)
 	constructorReleases(c, "C45.P1")
 }
